@@ -9,7 +9,9 @@
 
 use crate::driver::{CaseOutcome, CheckCtx, Found, PropMeta, Tier, Violation};
 use crate::evidence::{fingerprint, CaseInfo};
+use crate::hist::ops::Profile;
 use crate::props::c03::schedule_strategy;
+use crate::props::histprops::{hist_replay, run_case_for, HistProp};
 use crate::sched::{self, CaseCtl, RunEnd};
 use calloop::futures::{executor, Scheduler};
 use calloop::stream::StreamSource;
@@ -27,7 +29,7 @@ use std::time::{Duration, Instant};
 pub static META: PropMeta = PropMeta {
     id: "C10",
     level: "exploration",
-    rule: "cases: (a) sched: 1..4 scripted futures scheduled on an Executor inserted in a loop thread that dispatches with zero timeout (optionally scheduling one more future from the callback, optionally removing and dropping the executor after dispatch k), or a scripted stream in a StreamSource; 1..3 actor threads with programs over wake(task) / clone+wake(task) / complete+wake(task) (stream: push+wake / end+wake); the schedule over all executor, ping and harness yield sites (incl. one in the middle of every poll) is generated. oracle on the controller's logical clock: every scheduled future is polled; a poll of the task starts after every wake that began while it was pending and the executor was alive; all polls and future drops happen on the loop thread; each Ready(v) gives exactly one callback with v and no callback exists without a completion; after the executor is dropped every future has been dropped exactly once (checked before the Scheduler goes) and schedule() returns ExecutorDestroyed; stream: items delivered == items pushed in order, one None after end, then the slot is free. (c) free: 1..4 scripted futures, 2..3 free-running waker threads released together by a spin barrier (real concurrency, for races whose window holds no yield site) with programs over wake / clone+wake / complete+wake against the dispatching loop; oracle on CLOCK_MONOTONIC instants and end state: a completed+woken task delivers its value exactly once, every wake of a pending task is followed by a poll that started after it began, polls and drops only on the loop thread, every future dropped exactly once with the executor, ExecutorDestroyed afterwards. (b) batch: n ready tasks, n in {0,1,1023,1024,1025,2100} and random, complete over consecutive dispatches without external wake-up; futures scheduled from the callback and from futures run. non-trivial (sched): an actor's wake sites interleave with the executor's flag-clear / dequeue sites of a dispatch (actor step between EX_CLEAR_PRE and the end of that dispatch), or a wake lands in the middle of a poll, or the executor is dropped while a wake is in flight; (batch): n >= 1024; distinct by case fingerprint",
+    rule: "cases: (a) sched: 1..4 scripted futures scheduled on an Executor inserted in a loop thread that dispatches with zero timeout (optionally scheduling one more future from the callback, optionally removing and dropping the executor after dispatch k), or a scripted stream in a StreamSource; 1..3 actor threads with programs over wake(task) / clone+wake(task) / complete+wake(task) (stream: push+wake / end+wake); the schedule over all executor, ping and harness yield sites (incl. one in the middle of every poll) is generated. oracle on the controller's logical clock: every scheduled future is polled; a poll of the task starts after every wake that began while it was pending and the executor was alive; all polls and future drops happen on the loop thread; each Ready(v) gives exactly one callback with v and no callback exists without a completion; after the executor is dropped every future has been dropped exactly once (checked before the Scheduler goes) and schedule() returns ExecutorDestroyed; stream: items delivered == items pushed in order, one None after end, then the slot is free. (d) hist: single-thread histories through the history machine with Executor sources (schedule scripted futures that stay pending 0..3 times, optionally waking themselves; wake from outside; schedule and wake from callbacks; disable/enable/remove/slot reuse of the executor, also from other callbacks): a runnable task is polled by the next Ok dispatch of an enabled executor, never while disabled or after removal, a completed task's value is delivered exactly once in the same dispatch, every future is dropped exactly once with its executor, schedule() afterwards returns ExecutorDestroyed. (c) free: 1..4 scripted futures, 2..3 free-running waker threads released together by a spin barrier (real concurrency, for races whose window holds no yield site) with programs over wake / clone+wake / complete+wake against the dispatching loop; oracle on CLOCK_MONOTONIC instants and end state: a completed+woken task delivers its value exactly once, every wake of a pending task is followed by a poll that started after it began, polls and drops only on the loop thread, every future dropped exactly once with the executor, ExecutorDestroyed afterwards. (b) batch: n ready tasks, n in {0,1,1023,1024,1025,2100} and random, complete over consecutive dispatches without external wake-up; futures scheduled from the callback and from futures run. non-trivial (sched): an actor's wake sites interleave with the executor's flag-clear / dequeue sites of a dispatch (actor step between EX_CLEAR_PRE and the end of that dispatch), or a wake lands in the middle of a poll, or the executor is dropped while a wake is in flight; (batch): n >= 1024; distinct by case fingerprint",
     assumptions: &[
         "interleavings at yield-site granularity on x86-TSO with the real atomics, real mpsc queue and real eventfd",
         "async-task's internal state machine is exercised through calloop only; its own atomics have no yield sites",
@@ -697,6 +699,40 @@ fn dfs(ctx: &CheckCtx, base: Case, max: u64) -> Option<Found> {
     found
 }
 
+// ------------------------------------------------------------------------------------------ hist
+
+fn hist_profile() -> Vec<(&'static str, Profile, u32, u32)> {
+    let mut p = Profile::base();
+    p.k_exec = 8;
+    p.k_ping = 2;
+    p.k_chan = 0;
+    p.k_timer = 1;
+    p.k_gen = 1;
+    p.o_exec = 16;
+    p.o_token = 10;
+    p.o_insert = 6;
+    p.o_cause = 4;
+    p.o_handle = 0;
+    p.post_pct = 10;
+    p.max_ops = 35;
+    vec![("hist", p, 20_000, 300_000)]
+}
+
+pub static HIST: HistProp = HistProp {
+    id: "C10",
+    meta: &META,
+    profiles: hist_profile,
+    nontrivial: |f| f.tasks_scheduled > 0 && (f.task_wakes > 0 || f.tasks_scheduled_in_cb > 0 || f.in_batch_mutation > 0),
+    classes: |f, c| {
+        if f.tasks_scheduled > 0 {
+            c.push("hist_task_scheduled");
+        }
+    },
+    epoll_each_step: false,
+    workers: 8,
+    table: None,
+};
+
 // ------------------------------------------------------------------------------------------ free-running stress
 //
 // Waker threads run freely (released together by a spin barrier) against the dispatching loop: real concurrency,
@@ -759,6 +795,18 @@ impl Drop for FreeFut {
 }
 
 pub fn run_free(case: &FreeCase) -> CaseOutcome {
+    // free-running threads: not a pure function of the case; while a failure is being confirmed the case is repeated
+    let mut last = run_free_once(case);
+    for _ in 1..crate::driver::free_reps() {
+        if last.1.is_some() {
+            break;
+        }
+        last = run_free_once(case);
+    }
+    last
+}
+
+fn run_free_once(case: &FreeCase) -> CaseOutcome {
     use std::sync::atomic::AtomicUsize;
     let mut info = CaseInfo { fingerprint: fingerprint(case), ..CaseInfo::default() };
     let n_tasks = case.tasks.clamp(1, 4) as usize;
@@ -924,6 +972,15 @@ pub fn check(ctx: &CheckCtx) -> Option<Found> {
     if let Some(f) = ctx.search("free", free_strategy(), t.pick(3_000, 100_000), 4, None, run_free) {
         return Some(f);
     }
+    {
+        if let Some(f) = ctx.run_replays::<crate::hist::ops::HistCase, _>("hist", |c| run_case_for(&HIST, c)) {
+            return Some(f);
+        }
+        let (name, profile, q, th) = hist_profile().remove(0);
+        if let Some(f) = ctx.search_with(name, || crate::hist::ops::case_strategy(&profile), t.pick(q, th), 8, None, |c| run_case_for(&HIST, c)) {
+            return Some(f);
+        }
+    }
     for n in [0u32, 1, 2, 1023, 1024, 1025, 2047, 2048, 2100, 3100] {
         for (nested_every, from_cb) in [(0u32, false), (1, false), (7, true)] {
             let c = BatchCase { n, nested_every, from_cb };
@@ -955,6 +1012,9 @@ pub fn replay(_ctx: &CheckCtx, sub: &str, case: serde_json::Value) -> Result<Opt
     if sub == "free" {
         let c: FreeCase = serde_json::from_value(case).map_err(|e| e.to_string())?;
         return Ok(run_free(&c).1);
+    }
+    if sub == "hist" {
+        return hist_replay(&HIST, case);
     }
     let c: Case = serde_json::from_value(case).map_err(|e| e.to_string())?;
     Ok(run_case(&c).1)
